@@ -942,4 +942,212 @@ theorem cylinder_volume_bounds_aux {S : Nat} {r H : ℝ} (hr : 0 < r) (hH : 0 < 
   · nlinarith
   · nlinarith
 
+/-! ### hemisphere volume in closed form -/
+
+theorem detA' (r φ1 φ2 θ1 θ2 : ℝ) :
+    det3 (Pang r φ1 θ1) (Pang r φ2 θ2) (Pang r φ1 θ2) = r ^ 3 * sin φ1 * sin (φ1 - φ2) * sin (θ2 - θ1) := by
+  simp only [det3, Pang, V3.Dot, V3.Cross, V3.New, V3.Scale, sin_sub]; ring
+
+theorem detB' (r φ1 φ2 θ1 θ2 : ℝ) :
+    det3 (Pang r φ1 θ1) (Pang r φ2 θ1) (Pang r φ2 θ2) = r ^ 3 * sin φ2 * sin (φ1 - φ2) * sin (θ2 - θ1) := by
+  simp only [det3, Pang, V3.Dot, V3.Cross, V3.New, V3.Scale, sin_sub]; ring
+
+theorem det3_zero_left (b c : V3 ℝ) : det3 ⟨0, 0, 0⟩ b c = 0 := by simp [det3, V3.Dot]
+
+/-- logical determinant of a hemisphere triangle -/
+noncomputable def hdetL (r : ℝ) (R C : Nat) (t : LP × LP × LP) : ℝ :=
+  det3 (hemiPosL r R C t.1) (hemiPosL r R C t.2.1) (hemiPosL r R C t.2.2)
+
+theorem sin_psi (R ρ : Nat) (_h1 : 1 ≤ ρ) : sin (psiOf R ρ) = cos (((ρ - 1 : ℕ) : ℝ) * (π / (2 * R))) := by
+  rw [← sin_pi_div_two_sub]; congr 1; unfold psiOf; ring
+
+theorem dpsi {R : Nat} (hR : 2 ≤ R) {ρ : Nat} (h1 : 1 ≤ ρ) : psiOf R ρ - psiOf R (ρ + 1) = π / (2 * R) := by
+  rw [psiOf_step hR h1]; ring
+
+/-- `sin δ · Σ_{j<n} (cos(jδ) + cos((j+1)δ)) = sin(nδ)·(1 + cos δ)` -/
+theorem hemi_strip_sum (δ : ℝ) (n : Nat) :
+    sin δ * ((List.range n).map fun j : Nat => cos ((j : ℝ) * δ) + cos (((j : ℝ) + 1) * δ)).sum =
+      sin ((n : ℝ) * δ) * (1 + cos δ) := by
+  induction n with
+  | zero => simp
+  | succ n ih =>
+    rw [List.range_succ, List.map_append, List.sum_append, mul_add, ih]
+    simp only [List.map_cons, List.map_nil, List.sum_cons, List.sum_nil, add_zero]
+    push_cast
+    have e1 : ((n : ℝ) + 1) * δ = (n : ℝ) * δ + δ := by ring
+    rw [e1, sin_add, cos_add]
+    linear_combination (-sin ((n : ℝ) * δ)) * (sin_sq_add_cos_sq δ)
+theorem hdetL_cap {R C : Nat} (r : ℝ) (i : Nat) :
+    hdetL r R C (flipT ((0, 0), (1, (i + 1) % C), (1, i))) = 0 := by
+  simp only [hdetL, flipT, hemiPosL, if_true]; exact det3_zero_left _ _
+
+theorem hdetL_pole {R C i : Nat} (r : ℝ) (hR : 2 ≤ R) (hC : 3 ≤ C) (hi : i < C) :
+    hdetL r R C (flipT ((R, 0), (R - 1, i), (R - 1, (i + 1) % C))) =
+      r ^ 3 * sin (psiOf R (R - 1)) * sin (psiOf R (R - 1)) * sin (2 * π / C) := by
+  have hR0 : R ≠ 0 := by omega
+  have a0 : R - 1 ≠ 0 := by omega
+  have a1 : R - 1 ≠ R := by omega
+  simp only [hdetL, flipT, hemiPosL, hR0, if_true, if_false, a0, a1]
+  have e : (⟨0, r, 0⟩ : V3 ℝ) = Pang r 0 (thetaOf C ((i + 1) % C)) := by simp [Pang, V3.New, V3.Scale]
+  rw [e, det3_rot, det3_rot, detA', sin_dtheta hC hi, sub_zero]
+
+theorem hdetL_A {R C i : Nat} (r : ℝ) (hR : 2 ≤ R) (hC : 3 ≤ C) (hi : i < C) {j : Nat} (hj : j < R - 2) :
+    hdetL r R C (flipT ((j + 1, i), (j + 1, (i + 1) % C), (j + 2, (i + 1) % C))) =
+      r ^ 3 * sin (psiOf R (j + 1)) * sin (π / (2 * R)) * sin (2 * π / C) := by
+  have a0 : j + 1 ≠ 0 := by omega
+  have a1 : j + 1 ≠ R := by omega
+  have a2 : j + 2 ≠ 0 := by omega
+  have a3 : j + 2 ≠ R := by omega
+  simp only [hdetL, flipT, hemiPosL, if_false, a0, a1, a2, a3]
+  rw [detA', sin_dtheta hC hi, @dpsi R hR (j + 1) (by omega)]
+
+theorem hdetL_B {R C i : Nat} (r : ℝ) (hR : 2 ≤ R) (hC : 3 ≤ C) (hi : i < C) {j : Nat} (hj : j < R - 2) :
+    hdetL r R C (flipT ((j + 1, i), (j + 2, (i + 1) % C), (j + 2, i))) =
+      r ^ 3 * sin (psiOf R (j + 2)) * sin (π / (2 * R)) * sin (2 * π / C) := by
+  have a0 : j + 1 ≠ 0 := by omega
+  have a1 : j + 1 ≠ R := by omega
+  have a2 : j + 2 ≠ 0 := by omega
+  have a3 : j + 2 ≠ R := by omega
+  simp only [hdetL, flipT, hemiPosL, if_false, a0, a1, a2, a3]
+  rw [detB', sin_dtheta hC hi, @dpsi R hR (j + 1) (by omega)]
+
+theorem hemiL_det_sum {R C : Nat} (r : ℝ) (hR : 2 ≤ R) (hC : 3 ≤ C) :
+    ((sphereL R C).map fun t => hdetL r R C (flipT t)).sum =
+      C * r ^ 3 * sin (2 * π / C) * (sin (π / R) ^ 2 + cos (π / R) * (1 + cos (π / (2 * R)))) := by
+  simp only [sphereL, List.map_append, List.sum_append, List.map_flatMap, sum_flatMap', List.map_cons, List.map_nil,
+    List.sum_cons, List.sum_nil, add_zero]
+  set δ : ℝ := π / (2 * R) with hδ
+  set K : ℝ := r ^ 3 * sin δ * sin (2 * π / C) with hK
+  have hf : ((List.range C).map fun a => hdetL r R C (flipT ((0, 0), (1, (a + 1) % C), (1, a))) +
+        hdetL r R C (flipT ((R, 0), (R - 1, a), (R - 1, (a + 1) % C)))).sum
+      = C * (r ^ 3 * sin (psiOf R (R - 1)) * sin (psiOf R (R - 1)) * sin (2 * π / C)) := by
+    rw [sum_map_const _ _ (r ^ 3 * sin (psiOf R (R - 1)) * sin (psiOf R (R - 1)) * sin (2 * π / C))
+      (fun i hi => ?_), List.length_range]
+    have hi := List.mem_range.1 hi
+    rw [hdetL_cap, hdetL_pole r hR hC hi, zero_add]
+  have hs : ((List.range (R - 2)).map fun j => ((List.range C).map fun a_1 =>
+        hdetL r R C (flipT ((j + 1, a_1), (j + 1, (a_1 + 1) % C), (j + 2, (a_1 + 1) % C))) +
+        hdetL r R C (flipT ((j + 1, a_1), (j + 2, (a_1 + 1) % C), (j + 2, a_1)))).sum).sum
+      = ((List.range (R - 2)).map fun j : Nat => (C * K) * (cos ((j : ℝ) * δ) + cos (((j : ℝ) + 1) * δ))).sum := by
+    congr 1
+    refine List.map_congr_left fun j hj => ?_
+    have hj := List.mem_range.1 hj
+    rw [sum_map_const _ _ (K * (cos ((j : ℝ) * δ) + cos (((j : ℝ) + 1) * δ))) (fun i hi => ?_), List.length_range]
+    · ring
+    · have hi := List.mem_range.1 hi
+      rw [hdetL_A r hR hC hi hj, hdetL_B r hR hC hi hj, sin_psi R (j + 1) (by omega), sin_psi R (j + 2) (by omega), hK]
+      have c1 : ((j + 1 - 1 : ℕ) : ℝ) = (j : ℝ) := by simp
+      have c2 : ((j + 2 - 1 : ℕ) : ℝ) = (j : ℝ) + 1 := by
+        rw [show j + 2 - 1 = j + 1 by omega]; push_cast; ring
+      rw [c1, c2]; ring
+  rw [hf, hs, List.sum_map_mul_left]
+  have key := hemi_strip_sum δ (R - 2)
+  have hR0 : (R : ℝ) ≠ 0 := by positivity
+  have hc : ((R - 2 : ℕ) : ℝ) = (R : ℝ) - 2 := by rw [Nat.cast_sub hR]; simp
+  have hRδ : (R : ℝ) * δ = π / 2 := by rw [hδ]; field_simp
+  have b1 : ((R - 2 : ℕ) : ℝ) * δ = π / 2 - π / R := by
+    rw [hc]; have : π / (R : ℝ) = 2 * δ := by rw [hδ]; field_simp
+    rw [this]; linear_combination hRδ
+  rw [b1, sin_pi_div_two_sub] at key
+  have hpsi : sin (psiOf R (R - 1)) = sin (π / R) := by
+    rw [sin_psi R (R - 1) (by omega), show R - 1 - 1 = R - 2 by omega, ← hδ, b1, cos_pi_div_two_sub]
+  rw [hpsi, hK]
+  linear_combination (C * r ^ 3 * sin (2 * π / C)) * key
+
+/-- six times the enclosed volume of the hemisphere, in closed form -/
+theorem hemisphere_volume_aux {R C : Nat} (r : ℝ) (hR : 2 ≤ R) (hC : 3 ≤ C) :
+    volume6 (hemispherePos r R C) (hemisphereTris R C) =
+      C * r ^ 3 * sin (2 * π / C) * (sin (π / R) ^ 2 + cos (π / R) * (1 + cos (π / (2 * R)))) := by
+  rw [volume6_eq_sum, hemisphereTris_eq_flip, uvSphereTris_eq_map hR, List.map_map, List.map_map,
+    ← hemiL_det_sum r hR hC]
+  congr 1
+  refine List.map_congr_left fun t ht => ?_
+  obtain ⟨v1, v2, v3⟩ := sphereL_tri_valid hR hC ht
+  simp only [Function.comp, tm, flipT, hdetL, hemispherePos_enc r hR hC _ v1, hemispherePos_enc r hR hC _ v2,
+    hemispherePos_enc r hR hC _ v3]
+/-- the polar factor of the hemisphere: `g = sin²x + cos x·(1 + cos(x/2))`, `x = π/R`, lies in `[2(1 − 5x²/16), 2]` -/
+theorem hemi_polar_bounds {R : Nat} (hR : 2 ≤ R) :
+    sin (π / R) ^ 2 + cos (π / R) * (1 + cos (π / (2 * R))) ≤ 2 ∧
+    2 * (1 - 5 * π ^ 2 / (16 * (R : ℝ) ^ 2)) ≤ sin (π / R) ^ 2 + cos (π / R) * (1 + cos (π / (2 * R))) := by
+  have hR' : (2 : ℝ) ≤ R := by exact_mod_cast hR
+  have hR0 : (0 : ℝ) < R := by linarith
+  set x := π / (R : ℝ) with hx
+  have hx2 : π / (2 * (R : ℝ)) = x / 2 := by rw [hx]; field_simp
+  rw [hx2]
+  have hx0 : 0 ≤ x := by positivity
+  have hxle : x ≤ π / 2 := by
+    rw [hx, div_le_div_iff₀ hR0 (by norm_num)]; nlinarith [pi_pos]
+  have hu0 : 0 ≤ cos x := cos_nonneg_of_neg_pi_div_two_le_of_le (by linarith [pi_pos]) hxle
+  have hu1 : cos x ≤ 1 := cos_le_one x
+  have hv1 : cos (x / 2) ≤ 1 := cos_le_one _
+  have hu2 : 1 - x ^ 2 / 2 ≤ cos x := Real.one_sub_sq_div_two_le_cos
+  have hv2 : 1 - (x / 2) ^ 2 / 2 ≤ cos (x / 2) := Real.one_sub_sq_div_two_le_cos
+  have hs : sin x ^ 2 = 1 - cos x ^ 2 := by rw [sin_sq]
+  -- 2 − g = (1−u)² + u(1−v)
+  set u := cos x
+  set v := cos (x / 2)
+  have e : 5 * π ^ 2 / (16 * (R : ℝ) ^ 2) = 5 * x ^ 2 / 16 := by rw [hx]; field_simp
+  rw [hs, e]
+  constructor
+  · nlinarith [mul_nonneg hu0 (sub_nonneg.2 hv1), sq_nonneg (1 - u)]
+  · have h1 : (1 - u) ^ 2 ≤ 1 - u := by nlinarith
+    have h2 : u * (1 - v) ≤ 1 - v := by nlinarith
+    nlinarith
+
+theorem hemisphere_volume_bounds_aux {R C : Nat} {r : ℝ} (hr : 0 < r) (hR : 2 ≤ R) (hC : 3 ≤ C) :
+    volume6 (hemispherePos r R C) (hemisphereTris R C) / 6 ≤ 2 / 3 * π * r ^ 3 ∧
+    2 / 3 * π * r ^ 3 * (1 - 2 * π ^ 2 / (3 * (C : ℝ) ^ 2) - 5 * π ^ 2 / (16 * (R : ℝ) ^ 2)) ≤
+      volume6 (hemispherePos r R C) (hemisphereTris R C) / 6 := by
+  rw [hemisphere_volume_aux r hR hC]
+  obtain ⟨a1, a2⟩ := @ngon_bounds C (by omega)
+  obtain ⟨b1, b2⟩ := hemi_polar_bounds hR
+  have hA : 0 < (C : ℝ) * sin (2 * π / C) := by
+    have : (0 : ℝ) < C := by exact_mod_cast (by omega : 0 < C)
+    exact mul_pos this (sin_dtheta_pos hC)
+  have hr3 : 0 < r ^ 3 := by positivity
+  set A := (C : ℝ) * sin (2 * π / C) with hAdef
+  set B := sin (π / R) ^ 2 + cos (π / R) * (1 + cos (π / (2 * R))) with hBdef
+  set a := 2 * π ^ 2 / (3 * (C : ℝ) ^ 2) with hadef
+  set b := 5 * π ^ 2 / (16 * (R : ℝ) ^ 2) with hbdef
+  have ha0 : 0 ≤ a := by positivity
+  have hb0 : 0 ≤ b := by positivity
+  have e : (C : ℝ) * r ^ 3 * sin (2 * π / C) * B / 6 = r ^ 3 / 6 * (A * B) := by rw [hAdef]; ring
+  rw [e]
+  have hAB2 : 4 * π * (1 - a - b) ≤ A * B ∧ A * B ≤ 2 * π * 2 := by
+    by_cases hneg : 1 - a - b ≤ 0
+    · -- B ≥ 0 is not needed separately: B ≥ 2(1-b) may be negative, so argue directly
+      have hB0 : 0 ≤ B ∨ B < 0 := le_or_gt 0 B
+      rcases hB0 with hB0 | hB0
+      · have h0 : 0 ≤ A * B := mul_nonneg hA.le hB0
+        have : 4 * π * (1 - a - b) ≤ 0 := mul_nonpos_of_nonneg_of_nonpos (by positivity) hneg
+        refine ⟨by linarith, ?_⟩
+        calc A * B ≤ 2 * π * B := mul_le_mul_of_nonneg_right a1 hB0
+          _ ≤ 2 * π * 2 := mul_le_mul_of_nonneg_left b1 (by positivity)
+      · -- impossible: B ≥ 0 by its definition on x ≤ π/2; derive from b2 and b ≤ ... (handled via hemi bound)
+        exfalso
+        have hR' : (2 : ℝ) ≤ R := by exact_mod_cast hR
+        have hR0 : (0 : ℝ) < R := by linarith
+        have hxle : π / (R : ℝ) ≤ π / 2 := by
+          rw [div_le_div_iff₀ hR0 (by norm_num)]; nlinarith [pi_pos]
+        have hu0 : 0 ≤ cos (π / R) :=
+          cos_nonneg_of_neg_pi_div_two_le_of_le (by have := pi_pos; have : 0 ≤ π / (R : ℝ) := by positivity
+                                                    linarith) hxle
+        have hv0 : 0 ≤ 1 + cos (π / (2 * R)) := by linarith [neg_one_le_cos (π / (2 * (R : ℝ)))]
+        have : 0 ≤ B := by rw [hBdef]; positivity
+        linarith
+    · rw [not_le] at hneg
+      have h1a : 0 ≤ 1 - a := by linarith
+      have h1b : 0 ≤ 1 - b := by linarith
+      have hπ : 0 < π := pi_pos
+      have hB0 : 0 ≤ B := by linarith
+      refine ⟨?_, ?_⟩
+      · calc 4 * π * (1 - a - b) ≤ (2 * π * (1 - a)) * (2 * (1 - b)) := by nlinarith [mul_nonneg ha0 hb0]
+          _ ≤ A * (2 * (1 - b)) := mul_le_mul_of_nonneg_right a2 (by linarith)
+          _ ≤ A * B := mul_le_mul_of_nonneg_left b2 hA.le
+      · calc A * B ≤ 2 * π * B := mul_le_mul_of_nonneg_right a1 hB0
+          _ ≤ 2 * π * 2 := mul_le_mul_of_nonneg_left b1 (by positivity)
+  constructor
+  · nlinarith [hAB2.2]
+  · nlinarith [hAB2.1]
+
 end PolyVerif.Solids
